@@ -68,6 +68,19 @@ func programs(thorough bool) (two, three []*program) {
 	add(&two, failing, "Decode||Excl", T(D(1, 0)), T(X(1, 0)))
 	add(&two, failing, "Decode(T1)||Excl(T0)", T(D(1, 1)), T(X(1, 0)))
 	add(&two, failing, "Excl(T0 fails)||Excl(T1)", T(X(1, 0)), T(X(1, 1)))
+	// the same with the other flavours of decoder errors: a *MalformedFileError, an error that wraps ErrCycle
+	for kind, name := range map[int]string{1: "failing-decoder (malformed error)", 2: "failing-decoder (wraps ErrCycle)"} {
+		fk := mk(name, 2, true)
+		fk.errKind = kind
+		fk.fails[[2]int{1, 0}] = true
+		fk.fails[[2]int{2, 0}] = true
+		fk.next[2] = 1 // 2 is an alias of 1
+		fk.build()
+		add(&two, fk, "Excl||Excl", T(X(1, 0)), T(X(1, 0)))
+		add(&two, fk, "Excl;Excl||Excl", T(X(1, 0), X(1, 0)), T(X(1, 0)))
+		add(&two, fk, "Excl(alias)||Excl(alias)", T(X(2, 0)), T(X(2, 0)))
+		add(&three, fk, "Excl||Excl||Excl", T(X(1, 0)), T(X(1, 0)), T(X(1, 0)))
+	}
 
 	// --- chain 1 -> 2 (F14)
 	chain := mk("chain 1->2", 2, true)
